@@ -74,6 +74,9 @@ type FillTransform struct {
 		offset int64
 	}
 	prevWindow prevWindow
+	// fill(previous): the last value emitted for every column in the current group
+	// (kept across chunks while the group goes on, cleared when another group starts)
+	lastVals prevWindow
 
 	fillLogger *logger.Logger
 
@@ -732,6 +735,9 @@ func (trans *FillTransform) fillCall(c Chunk, window *prevWindow, fill bool) boo
 				trans.window.time/trans.interval,
 				trans.fillVal,
 			)
+			if trans.opt.Fill == influxql.PreviousFill {
+				window = &trans.lastVals
+			}
 			trans.fillProcessor[i].fillHelperFunc(
 				c,
 				trans.newChunk,
@@ -756,12 +762,16 @@ func (trans *FillTransform) appendCall(c Chunk, intervalIndexAt int) {
 			trans.fillVal,
 		)
 		trans.fillItem[i].currIndex = c.IntervalIndex()[intervalIndexAt]
+		window := &trans.prevWindow
+		if trans.opt.Fill == influxql.PreviousFill {
+			window = &trans.lastVals
+		}
 		trans.fillProcessor[i].fillAppendFunc(
 			c,
 			trans.newChunk,
 			trans.prevChunk,
 			trans.fillItem[i],
-			&trans.prevWindow,
+			window,
 		)
 	}
 }
@@ -817,6 +827,17 @@ func (trans *FillTransform) nextPrevWindow(c Chunk, intervalIndex int) {
 }
 
 func (trans *FillTransform) newWindow(c Chunk, tagIndexAt, tagStartIndex int) {
+	if trans.opt.Fill == influxql.PreviousFill {
+		tags := c.Tags()[tagIndexAt]
+		if trans.lastVals.value == nil || trans.lastVals.name != c.Name() || !bytes.Equal(trans.lastVals.tags.Subset(nil), tags.Subset(nil)) {
+			trans.lastVals.value = make([]interface{}, c.NumberOfCols())
+			trans.lastVals.nil = make([]bool, c.NumberOfCols())
+			for i := range trans.lastVals.nil {
+				trans.lastVals.nil[i] = true
+			}
+		}
+		trans.lastVals.name, trans.lastVals.tags = c.Name(), tags
+	}
 	// Set the new interval.
 	trans.window.name = c.Name()
 	trans.window.tags = c.Tags()[tagIndexAt]
